@@ -5,20 +5,20 @@ import toklib as T
 
 def run(ck):
     bindir, model = K.setup(ck)
-    n = 1500 if ck.quick else 40000
+    n = 6000 if ck.quick else 40000
     corr = [T.gen_case(ck.rng) for _ in range(n)]
     K.correspondence(ck, bindir, model, corr, "tokenizers")
     r = ck.rng
-    hin = K.gen_inputs(ck, 800 if ck.quick else 30000, "h")
+    hin = K.gen_inputs(ck, 3200 if ck.quick else 30000, "h")
     # long character runs (>= 16 bytes, the SIMD stride) with line breaks and stop characters at every lane offset
-    for _ in range(200 if ck.quick else 5000):
+    for _ in range(800 if ck.quick else 5000):
         run_ = "".join(r.choice("abcdefgh \n\n\té") for _ in range(r.randint(14, 70)))
         k = r.randint(0, len(run_))
         hin.append(run_[:k] + r.choice(["<", "&", "\r", "\0", "\r\n", "&amp;", "<b>"]) + run_[k:])
-    xin = K.gen_inputs(ck, 600 if ck.quick else 20000, "x")
+    xin = K.gen_inputs(ck, 2400 if ck.quick else 20000, "x")
     e1, f1 = K.options_oracle(ck, bindir, "h", hin)
     e2, f2 = K.options_oracle(ck, bindir, "x", xin)
-    e3, f3 = K.tree_options_oracle(ck, bindir, hin[: (400 if ck.quick else 10000)])
+    e3, f3 = K.tree_options_oracle(ck, bindir, hin[: (1600 if ck.quick else 10000)])
     ck.cov.update({
         "evaluations": n + e1 + e2 + e3, "distinct_nontrivial": len(set(s for s in hin + xin if len(s) > 3)),
         "rule": "generated html/xml + long runs crossing the 16-byte SIMD stride; each input (one random chunking) under "
